@@ -85,3 +85,8 @@ def judge(c, impl, model):
     elif cls == 'bad':
         pass   # panics are C12's subject
     return fs, info
+
+
+def judge_all(cases, impl, model, tier):
+    fs, info = rustc_layout_validation(ID, cases, impl, tier)
+    return fs, info, []
